@@ -123,7 +123,22 @@ class BaseEval:
                     return B0
                 return None
             if h == "comp":
+                # [f(x) for x in seq]: base of f(x) with x carrying the element base of seq
+                if len(t[3]) == 1 and len(t[2]) == 1 and not t[3][0][2]:
+                    tgt, it, _ = t[3][0]
+                    eb = self._b(("elem_of", it), at)
+                    if tgt[0] == "b" and eb is not None:
+                        self.benv = getattr(self, "benv", {})
+                        self.benv[tgt[1]] = eb
+                        try:
+                            return self._b(t[2][0], at)
+                        finally:
+                            self.benv.pop(tgt[1], None)
                 return None
+            if h == "b":
+                return getattr(self, "benv", {}).get(t[1])
+            if h == "ifexp":
+                return _join([self._b(t[2], at), self._b(t[3], at)])
             if h == "sub":
                 return self._b(t[1], at)
             return None
